@@ -11,7 +11,7 @@ ASSUMPTIONS = ["finite numbers only; every float is k/4 so that Python int/float
                "falsy expected values constrain nothing; aud is only checked when present and non-empty (RFC 7519 §4.1.3)"]
 
 NAMES = ["iss", "sub", "aud", "exp", "nbf", "iat", "jti", "x"]
-STRS = ["a", "b", ""]
+STRS = ["a", "b", "", "100", "99", "101"]      # digit strings: a NumericDate is a JSON number, not its text
 NUMS = [0, 1, 99, 100, 101, 99.75, 100.0, 100.25, 0.0, -1]
 OTHERS = [True, False, None]
 LISTS = [[], ["a"], ["a", "b"], ["b", "c"], [1], [None]]
@@ -83,7 +83,92 @@ def option_shapes():
     return out
 
 
+CONSUMER_ISS = "https://as.example/tenant"
+ISS_NEAR = ["=", "+/", "-1", "[8:]", "as.example", "h", "upper", "+x", "list", "missing", "", "//"]
+CONSUMERS = ["rfc7523_validator", "rfc9068_validator", "flask_parse_id_token", "django_parse_id_token", "starlette_parse_id_token"]
+
+
+def consumer_cases():
+    """the places where the library itself configures the issuer check for a caller: only the configured issuer passes"""
+    return [{"consumer": cn, "iss": y} for cn in CONSUMERS for y in ISS_NEAR]
+
+
+def near_iss(y):
+    X = CONSUMER_ISS
+    return {"=": X, "+/": X + "/", "-1": X[:-1], "[8:]": X[8:], "upper": X.upper(), "+x": X + "x", "list": [X], "missing": None, "//": X.replace("/tenant", "//tenant")}.get(y, y)
+
+
+def impl_consumer(c):
+    import asyncio, time as _t
+    from authlib.jose import jwt as _jwt, OctKey
+    import memserver as ms
+    ms.install_clock(); ms.CLOCK.now = 1_000_000
+    now = int(ms.CLOCK())
+    iss = near_iss(c["iss"])
+    key = OctKey.import_key(_K, {"kid": "k1"})
+    cn = c["consumer"]
+    def tok(claims, header=None):
+        if iss is not None:
+            claims = dict(claims, iss=iss)
+        t = _jwt.encode(dict({"alg": "HS256", "kid": "k1"}, **(header or {})), claims, key)
+        return t.decode() if isinstance(t, bytes) else t
+    try:
+        if cn == "rfc7523_validator":
+            from authlib.oauth2.rfc7523 import JWTBearerTokenValidator
+            v = JWTBearerTokenValidator(key, issuer=CONSUMER_ISS)
+            r = v.authenticate_token(tok({"exp": now + 600, "iat": now, "client_id": "c1", "grant_type": "client_credentials", "scope": "a"}))
+            return {"accepted": r is not None}
+        if cn == "rfc9068_validator":
+            from authlib.oauth2.rfc9068 import JWTBearerTokenValidator as V9068
+            from authlib.jose import KeySet
+            from authlib.oauth2.rfc6749.errors import OAuth2Error
+
+            class V(V9068):
+                def get_jwks(self):
+                    return KeySet([key])
+            v = V(issuer=CONSUMER_ISS, resource_server="https://rs.example")
+            try:
+                t = v.authenticate_token(tok({"exp": now + 600, "iat": now, "aud": "https://rs.example", "sub": "u", "client_id": "c1", "jti": "j"}, {"typ": "at+jwt"}))
+                v.validate_token(t, None, None)
+                return {"accepted": True}
+            except OAuth2Error as e:
+                return {"accepted": False, "error": e.error}
+        claims = {"sub": "u", "aud": "cid", "exp": now + 600, "iat": now, "nonce": "n"}
+        reg = dict(client_id="cid", client_secret="sec", jwks={"keys": [dict(key.as_dict(is_private=True))]}, issuer=CONSUMER_ISS, id_token_signing_alg_values_supported=["HS256"],
+                   access_token_url="https://as.example/token", authorize_url="https://as.example/authorize")
+        token = {"id_token": tok(claims), "access_token": "at"}
+        from authlib.jose.errors import JoseError
+        try:
+            if cn == "flask_parse_id_token":
+                from flask import Flask
+                from authlib.integrations.flask_client import OAuth
+                app = Flask("c04"); app.secret_key = "x"
+                oauth = OAuth(app); oauth.register("p", **reg)
+                with app.test_request_context("/"):
+                    ui = oauth.p.parse_id_token(token, nonce="n")
+            elif cn == "django_parse_id_token":
+                from django.conf import settings
+                if not settings.configured:
+                    settings.configure(DEBUG=False, SECRET_KEY="x", ALLOWED_HOSTS=["*"])
+                from authlib.integrations.django_client import OAuth
+                oauth = OAuth(); oauth.register("p", **reg)
+                ui = oauth.p.parse_id_token(token, nonce="n")
+            else:
+                from authlib.integrations.starlette_client import OAuth
+                oauth = OAuth(); oauth.register("p", **reg)
+                ui = asyncio.run(oauth.p.parse_id_token(token, nonce="n"))
+            return {"accepted": ui is not None}
+        except JoseError as e:
+            return {"accepted": False, "error": e.error}
+    except Exception as e:
+        return {"raised": type(e).__name__ + ": " + str(e)[:80]}
+
+
 def cases(rng, tier):
+    return _cases(rng, tier) + consumer_cases()
+
+
+def _cases(rng, tier):
     shapes = option_shapes()
     out = []
     # single claim × single option (same or different name), exhaustive over the pools
@@ -262,9 +347,59 @@ def build(c):
     return payload, options, num(c["now"]), num(c["leeway"])
 
 
+_K = b"0123456789abcdef0123456789abcdef"
+
+
+def via_decode(payload, header, cls, options, params=None):
+    """the claims object as a relying party gets it: the payload signed, then decoded by JsonWebToken.decode"""
+    import json as _json
+    from authlib.jose import JsonWebToken
+    try:
+        _json.dumps(payload, allow_nan=False)
+    except (TypeError, ValueError):
+        return None
+    jw = JsonWebToken(["HS256"])
+    tok = jw.encode(dict(header, alg="HS256"), payload, _K)
+    kw = {"claims_params": params} if params is not None else {}
+    return jw.decode(tok, _K, claims_cls=cls, claims_options=options, **kw)
+
+
+def _verdict(obj, now, lw):
+    try:
+        obj.validate(now=now, leeway=lw)
+        return {"ok": True}
+    except je.MissingClaimError as e:
+        return {"err": "missing_claim", "claim": e.description.split("'")[1]}
+    except je.InvalidClaimError as e:
+        return {"err": "invalid_claim", "claim": e.claim_name}
+    except je.ExpiredTokenError:
+        return {"err": "expired_token"}
+    except je.InvalidTokenError:
+        return {"err": "invalid_token"}
+    except Exception as e:
+        return {"raised": type(e).__name__}
+
+
 def impl(c):
+    if c.get("consumer"):
+        return impl_consumer(c)
     if c.get("derived"):
         return impl_derived(c)
+    payload, options, now, lw = build(c)
+    out = impl_direct(c)
+    try:
+        obj = via_decode(payload, {}, JWTClaims, options)
+    except Exception as e:
+        obj = None
+        out["differs:decode"] = {"raised": "decode:" + type(e).__name__}
+    if obj is not None:
+        o2 = _verdict(obj, now, lw)
+        if o2 != out:
+            out["differs:decode"] = o2
+    return out
+
+
+def impl_direct(c):
     payload, options, now, lw = build(c)
     claims = JWTClaims(payload, {}, options)
     try:
@@ -322,6 +457,23 @@ def violated(payload, options, now, lw):
 
 
 def oracle(c, out):
+    if c.get("consumer"):
+        if "raised" in out:
+            return [(f"{c['consumer']} raised {out['raised']}", {"kind": "crash", "exc": out["raised"].split(":")[0], "consumer": c["consumer"]})]
+        want = c["iss"] == "="
+        if out["accepted"] and not want:
+            return [(f"{c['consumer']} configured for issuer {CONSUMER_ISS!r} accepted a token whose iss is {near_iss(c['iss'])!r}", {"kind": "accepted-nonconforming", "constraint": "value",
+                                                                                                                       "claim": "iss", "consumer": c["consumer"]})]
+        if not out["accepted"] and want:
+            return [(f"{c['consumer']} refused a token from its configured issuer ({out.get('error')})", {"kind": "refused-conforming", "consumer": c["consumer"]})]
+        return []
+    v = oracle_one(c, {k: x for k, x in out.items() if k != "differs:decode"})
+    if "differs:decode" in out:
+        v += [("[through JsonWebToken.decode] " + what, dict(sig, via="decode")) for what, sig in oracle_one(c, out["differs:decode"])]
+    return v
+
+
+def oracle_one(c, out):
     payload, options, now, lw = build(c)
     if c.get("derived"):
         if c["derived"] == "at9068":
@@ -361,11 +513,19 @@ def oracle(c, out):
     return v
 
 
+def model_line(c):
+    return None if c.get("consumer") else c
+
+
 def classify(c, out):
+    if c.get("consumer"):
+        return f"consumer/{c['consumer']}/" + ("accepted" if out.get("accepted") else "refused")
     return out.get("err", "ok" if "ok" in out else "raised") + ("/" + out["claim"] if "claim" in out else "")
 
 
 def nontrivial(c, out):
+    if c.get("consumer"):
+        return c
     return c if (c["options"] or any(k in ("exp", "nbf", "iat") for k, _ in c["claims"])) else None
 
 
